@@ -627,6 +627,12 @@ def run_impl(w, ops, viol, fsf=False):
                                      "after the caller mutated an array the object holds by reference, %s differs from a fresh object" % dk, si)
                             elif fsf is True:
                                 viol("Phonopy.run_qpoints", "frequency-scale-factor-compounds", "%s differs from a fresh object constructed the same way" % dk, si)
+                            elif dk in ("tp", "dos") and what in DERIVED and close(
+                                    read_derived(ph, "mesh"), w.fresh(ph.force_constants, ph.nac_params, ph.masses, False, fsf, kind="mesh")[0], 1e-6):
+                                # the stored mesh IS current: the answer is wrong for another reason than a stale mesh
+                                viol("Phonopy.run_%s" % ("thermal_properties" if dk == "tp" else "total_dos"), "wrong-result-on-current-mesh",
+                                     "run_%s(%r) on an up-to-date mesh differs from a fresh object asked the same question (after earlier calls with other options)"
+                                     % ("thermal_properties" if dk == "tp" else "total_dos", (TP_OPTS if dk == "tp" else DOS_OPTS)[last_opt.get(dk, 0)]), si)
                             else:
                                 viol("Phonopy result objects", "stale-derived-object",
                                      "%s: the stored %s object differs from that of a fresh object given the current force constants, NAC "
@@ -771,6 +777,61 @@ def check_produced(w, ph, compact, viol, si, tainted):
              "produce_force_constants() returned force constants that differ by %.3g from those a fresh object produces from ph.dataset" % d, si)
 
 
+def displacement_scripts(run, w, rng):
+    """the `displacements` / `forces` attribute setters on a type-2 dataset (oracle only: symfc/alm are not available, so
+    no force constants can be produced from type-2 data here): after every step the object's dataset, displaced supercells
+    and the outcome of produce_force_constants equal those of a fresh object given the final dataset"""
+    rs = np.random.RandomState(w.seed + 5)
+    ns = w.ns
+    D = [rs.normal(scale=0.02, size=(2, ns, 3)) for _ in range(3)]
+    Fs = [rs.normal(scale=0.5, size=(2, ns, 3)) for _ in range(2)]
+    scripts = [[("disp", 0), ("forces", 0), ("scs",), ("disp", 1), ("scs",), ("produce",), ("forces", 1), ("disp", 2), ("scs",)],
+               [("generate",), ("disp", 0), ("setds-none",), ("disp", 1), ("scs",), ("forces", 0), ("generate",), ("scs",)]]
+    for sc in scripts:
+        ph = w.new_phonopy()
+        for si, op in enumerate(sc):
+            res = None
+            try:
+                if op[0] == "disp":
+                    handed = D[op[1]].copy()
+                    ph.displacements = handed
+                    if not close(handed, D[op[1]], 0.0):
+                        run.violation("Phonopy.displacements setter", "caller-array-modified", "the displacement array handed in was modified", dict(world=w.describe(), script=sc[: si + 1]))
+                elif op[0] == "forces":
+                    ph.forces = Fs[op[1]].copy()
+                elif op[0] == "generate":
+                    ph.generate_displacements(distance=0.02)
+                elif op[0] == "setds-none":
+                    ph.dataset = None
+                elif op[0] == "produce":
+                    ph.produce_force_constants()
+                elif op[0] == "scs":
+                    res = [x.positions for x in ph.supercells_with_displacements]
+            except Exception as e:
+                res = ("err", type(e).__name__)
+            # fresh object given the final dataset
+            p = w.new_phonopy()
+            fres = None
+            try:
+                p.dataset = _copy.deepcopy(ph.dataset)
+                if op[0] == "produce":
+                    p.produce_force_constants()
+                elif op[0] == "scs":
+                    fres = [x.positions for x in p.supercells_with_displacements]
+            except Exception as e:
+                fres = ("err", type(e).__name__)
+            bad = None
+            if op[0] == "produce" and (res is None) != (fres is None):
+                bad = "produce_force_constants: %r on the object, %r on a fresh object given the same dataset" % (res, fres)
+            elif op[0] == "scs" and not (isinstance(res, list) and isinstance(fres, list) and len(res) == len(fres) and all(close(a, b) for a, b in zip(res, fres))):
+                bad = "supercells_with_displacements differ from those of a fresh object given ph.dataset"
+            elif op[0] == "produce" and res is None and not close(ph.force_constants, p.force_constants, 1e-9):
+                bad = "produced force constants differ from a fresh object's"
+            if bad:
+                run.violation("Phonopy.displacements/forces setters", "stale-state", bad, dict(world=w.describe(), script=[list(o) for o in sc[: si + 1]]))
+            run.count("type-2 displacements/forces setter steps compared with a fresh object", section="oracle")
+
+
 def snapshot(dg):
     """freeze the arrays of a digest (later steps mutate them in place)"""
     def cp(x):
@@ -810,10 +871,16 @@ def check_copy(w, ph, c, viol, si):
     c.run_qpoints(QS)
     sm = c.supercell_matrix
     pm = c.primitive_matrix
-    if sm is not None and np.shares_memory(sm, ph.supercell_matrix):
-        viol("Phonopy.copy", "copy-shares-array", "copy().supercell_matrix shares memory with the original", si)
-    if pm is not None and ph.primitive_matrix is not None and np.shares_memory(pm, ph.primitive_matrix):
-        viol("Phonopy.copy", "copy-shares-array", "copy().primitive_matrix shares memory with the original", si)
+    # end effect, through the public getters: writing into an array the copy hands out must not show in the original
+    for name, arr, delta in (("supercell_matrix", sm, 7), ("primitive_matrix", pm, 0.5)):
+        if arr is None or getattr(ph, name) is None:
+            continue
+        old = arr[0, 0]
+        arr[0, 0] = old + delta
+        leaked = getattr(ph, name)[0, 0] == old + delta
+        arr[0, 0] = old
+        if leaked:
+            viol("Phonopy.copy", "copy-not-independent", "writing into copy().%s changes %s of the original object" % (name, name), si)
     after = params()
     for k in before:
         same = nac_close(before[k], after[k]) if k == "nac" else close(after[k], before[k], 0.0)
@@ -1580,10 +1647,16 @@ def main(run):
     run.cov["impl_wall_s"] = round(time.time() - t0, 1)
     run.cov["processes"] = nproc
 
+    # conditions on hidden state / representation are counted, not judged (the correspondence with the model and the
+    # end-effect oracles decide): private GroupVelocity configuration, nested containers shared with a caller's dict
+    OBSERVATIONS = {"gv-configuration-differs", "caller-container-shared"}
     found = {}  # (site, class) -> first (world, ops, what, step)
     nsteps = nbad = 0
     for (w, ops, tag, word, fsf), (idx, hits, mis), line, ml in zip(cases, results, lines, outl):
         for (s, c, what, si) in hits:
+            if c in OBSERVATIONS:
+                run.count("%s / %s (observation, not a verdict)" % (s, c), section="oracle")
+                continue
             run.count("%s / %s" % (s, c), section="oracle")
             if (s, c) not in found or len(ops) < len(found[(s, c)][1]):
                 found[(s, c)] = (w, ops, what, si, fsf)
@@ -1612,6 +1685,9 @@ def main(run):
                                        masses0=None if w.start_masses is None else "from symbols",
                                        note="ops as in lean/Drivers/C15.lean; value 7k = entry k of the pools of World(crystal, supercell, pool_seed) in harness/props/c15.py"))
 
+    for w in worlds[:2]:
+        displacement_scripts(run, w, rng)
+
     # ---- two objects sharing the caller's containers
     t0 = time.time()
     npair = 0
@@ -1639,8 +1715,8 @@ def main(run):
                                          note="A and B are handed the same caller dataset dict / masses list / nac dict / fc array (harness/props/c15.py: run_pair)"))
 
     if ctor_hits:
-        w, what = ctor_hits[0]
-        run.violation("Phonopy.__init__", "supercell-matrix-aliased", what, dict(world=w.describe(), supercell_matrix="np.diag(%s)" % w.smat))
+        # representation-level condition (the stored matrix is a view of the caller's array): an observation, not a verdict
+        run.count("constructor keeps a view of the caller's supercell_matrix array (observation, not a verdict)", len(ctor_hits), section="oracle")
 
     k = min(len(lines) - 1, 700)
     run.sample(dict(history=lines[k], model=outl[k][:600]))
